@@ -50,3 +50,11 @@ Print Assumptions sites_respect_discipline.
 Theorem critical_sections_whole : Gen.Sites.split_critical_sections = [].
 Proof. reflexivity. Qed.
 Print Assumptions critical_sections_whole.
+
+(* no lock is ever copied: every value that contains a mutex is used through the one instance the
+   discipline table speaks about (a by-value copy would carry a lock of its own, and accesses
+   "guarded" by the copy would not exclude accesses guarded by the original). Regenerated on every
+   run from `go vet -copylocks` over the non-test sources (G11). *)
+Theorem no_lock_is_copied : Gen.Sites.copied_locks = [].
+Proof. exact eq_refl. Qed.
+Print Assumptions no_lock_is_copied.
